@@ -154,7 +154,7 @@ def r5(ctx, prog):
 
 
 def run(ctx):
-    prog = extract(['coroutine/scheduler.cpp'], extra_units=[instantiate_unit()])
+    prog = extract('ALL' if ctx.tier == 'thorough' else ['coroutine/scheduler.cpp'], extra_units=[instantiate_unit()])
     ctx.guard(r1, ctx, prog)
     ctx.guard(r2, ctx, prog)
     ctx.guard(r3, ctx, prog)
